@@ -47,7 +47,55 @@ type Explorer struct {
 	solverErrs int
 }
 
+var interpPool struct {
+	mu   sync.Mutex
+	free []*Interp
+}
+
+// releaseInterp returns an interpreter (with its initialised package state
+// and its solver process) to the pool for the next kernel of this process.
+func releaseInterp(in *Interp) {
+	interpPool.mu.Lock()
+	interpPool.free = append(interpPool.free, in)
+	interpPool.mu.Unlock()
+}
+
+func closeInterpPool() {
+	interpPool.mu.Lock()
+	for _, in := range interpPool.free {
+		in.solver.Close()
+	}
+	interpPool.free = nil
+	interpPool.mu.Unlock()
+}
+
 func (ex *Explorer) newInterp() (*Interp, error) {
+	interpPool.mu.Lock()
+	if n := len(interpPool.free); n > 0 && interpPool.free[n-1].prog == ex.prog && interpPool.free[n-1].solver.kind == solverKindName(ex.solverKind) && interpPool.free[n-1].solver.Errors == 0 {
+		in := interpPool.free[n-1]
+		interpPool.free = interpPool.free[:n-1]
+		interpPool.mu.Unlock()
+		in.solver.SetTimeout(ex.timeoutMs)
+		in.solver.Queries = 0
+		in.solver.SolverDur = 0
+		in.maxSteps = ex.maxSteps
+		in.cfg = ex.kernel
+		in.stats = newPathStats()
+		in.viols = nil
+		in.incomplete = nil
+		in.stubs = ex.stubs
+		in.intrinsicCache = map[*ssa.Function]intrinsicFn{}
+		in.params = ex.params
+		in.tier = ex.tier
+		in.all = nil
+		in.live = nil
+		in.concreteMode = false
+		in.vector = nil
+		in.observed = nil
+		in.dec = nil
+		return in, nil
+	}
+	interpPool.mu.Unlock()
 	sv, err := NewSolver(ex.solverKind, ex.timeoutMs)
 	if err != nil {
 		return nil, err
@@ -141,7 +189,7 @@ func (ex *Explorer) worker(id int, wg *sync.WaitGroup) {
 		fmt.Fprintf(os.Stderr, "worker %d: %v\n", id, err)
 		return
 	}
-	defer in.solver.Close()
+	defer releaseInterp(in)
 	// warm up: force package initialisation outside the journal
 	for {
 		ex.mu.Lock()
@@ -294,8 +342,35 @@ func firstLine(s string) string {
 	return s
 }
 
+// describePath renders one explored path: its size and a solver-produced
+// witness (concrete input vector) that drives the real code down this path.
 func (in *Interp) describePath() string {
 	s := fmt.Sprintf("path with %d decisions, %d inputs, %d constraints", len(in.dec), len(in.inputs), len(in.pc))
+	if in.concreteMode {
+		return s
+	}
+	if r := in.solver.Check(in.assumps()); r == Sat {
+		var vars []*Term
+		for _, ir := range in.inputs {
+			if ir.term != nil && int(ir.term.id) < len(in.solver.defined) && in.solver.defined[ir.term.id] {
+				vars = append(vars, ir.term)
+			}
+		}
+		if vals, err := in.solver.Values(vars); err == nil {
+			vec := make([]uint64, 0, len(in.inputs))
+			for _, ir := range in.inputs {
+				if ir.term == nil {
+					vec = append(vec, ir.conc)
+				} else {
+					vec = append(vec, vals[ir.term.name])
+				}
+			}
+			if len(vec) > 24 {
+				vec = vec[:24]
+			}
+			s += fmt.Sprintf("; witness inputs %v", vec)
+		}
+	}
 	return s
 }
 
